@@ -14,6 +14,8 @@ FILES = [
     ("cfgrammar/src/lib/yacc/grammar.rs (accessor methods and lookups: token_precs / token_prec, prod_precedence, rule_name_str / rule_idx / token_idx / token_name, tokens_map, iter_*; firsts()/follows() plumbing) and cfgrammar/src/lib/yacc/firsts.rs / follows.rs accessors", "I07"),
     ("lrtable/src/lib/statetable.rs (the second pass of StateTable::new that fills core_reduces, state_shifts, reduce_states and final_state; the accessor methods state_actions, state_shifts, core_reduces, reduce_only_state, goto, start_state; encode/decode)", "I08"),
 ]
+if os.path.exists('/tmp/files.json'):
+    FILES = [tuple(x) for x in json.load(open('/tmp/files.json'))]
 props = [json.loads(l) for l in open(os.path.join(root, 'properties.jsonl'))]
 taken = []
 for n in sorted(os.listdir(os.path.join(root, 'seeded'))):
